@@ -162,6 +162,9 @@ struct St<'a> {
     ctx: &'a Ctx,
     evals: std::sync::atomic::AtomicU64,
     distinct: Mutex<BTreeSet<String>>,
+    /// split cases are distinct by construction ((bits, length, cut points) is
+    /// enumerated once), so they are counted instead of stored
+    split_ok: std::sync::atomic::AtomicU64,
 }
 impl St<'_> {
     fn tick(&self, n: u64) {
@@ -180,11 +183,11 @@ impl St<'_> {
 fn section_splits<T: H>(st: &St, thorough: bool) {
     let mut lens: Vec<usize> = (0..=272).collect();
     lens.extend([383, 384, 385, 511, 512, 513, 1024, 4096]);
-    let three_max = if thorough { 140 } else { 48 };
+    let three_max = if thorough { 272 } else { 48 };
     lens.par_iter().for_each(|&l| {
         let data = pattern(l, l as u64);
         let want = refb2b(T::BITS / 8, &data);
-        let mut keys = vec![];
+        let mut ok = 0u64;
         let mut n = 0u64;
         let bad = |kind: &str, parts: Vec<usize>, got: Vec<u8>| {
             st.ctx.violation(
@@ -198,7 +201,7 @@ fn section_splits<T: H>(st: &St, thorough: bool) {
         };
         n += 1;
         match catch(|| T::oneshot(&data)) {
-            Ok(g) if g == want => keys.push(format!("hash:{}:{l}", T::BITS)),
+            Ok(g) if g == want => ok += 1,
             Ok(g) => bad("hash", vec![l], g),
             Err(p) => panicked(p, vec![l]),
         }
@@ -207,7 +210,7 @@ fn section_splits<T: H>(st: &St, thorough: bool) {
             match catch(|| T::chunks(&[&data[..i], &data[i..]])) {
                 Ok(g) if g == want => {
                     if i > 0 && i < l {
-                        keys.push(format!("s2:{}:{l}:{i}", T::BITS));
+                        ok += 1;
                     }
                 }
                 Ok(g) => bad("input+finalize", vec![i, l - i], g),
@@ -221,7 +224,7 @@ fn section_splits<T: H>(st: &St, thorough: bool) {
                     match catch(|| T::chunks(&[&data[..i], &data[i..j], &data[j..]])) {
                         Ok(g) if g == want => {
                             if i > 0 && j > i && j < l {
-                                keys.push(format!("s3:{}:{l}:{i}:{j}", T::BITS));
+                                ok += 1;
                             }
                         }
                         Ok(g) => bad("input+finalize", vec![i, j - i, l - j], g),
@@ -236,14 +239,14 @@ fn section_splits<T: H>(st: &St, thorough: bool) {
         match catch(|| T::chunks(&parts)) {
             Ok(g) if g == want => {
                 if l > 1 {
-                    keys.push(format!("s1:{}:{l}", T::BITS))
+                    ok += 1
                 }
             }
             Ok(g) => bad("input+finalize", vec![1; l], g),
             Err(p) => panicked(p, vec![1; l]),
         }
         st.tick(n);
-        st.nontrivial(keys);
+        st.split_ok.fetch_add(ok, std::sync::atomic::Ordering::Relaxed);
     });
 }
 
@@ -596,7 +599,7 @@ pub fn run(ctx: Ctx) -> ! {
     if hex::encode(refb2b(64, b"abc")) != "ba80a53f981c4d0d6a2797b69f12f6e94c212f14685ac4b74b12bb6fdbffa2d17d87c5392aab792dc252d5de4533cc9518d38aa8dbf1925ab92386edd4009923" {
         mc_core::report::machinery_failure("C10: reference Blake2b fails the RFC 7693 vector");
     }
-    let st = St { ctx: &ctx, evals: Default::default(), distinct: Mutex::new(BTreeSet::new()) };
+    let st = St { ctx: &ctx, evals: Default::default(), distinct: Mutex::new(BTreeSet::new()), split_ok: Default::default() };
     let thorough = ctx.thorough;
 
     section_splits::<H160>(&st, thorough);
@@ -625,13 +628,17 @@ pub fn run(ctx: Ctx) -> ! {
     let evals = st.evals.load(std::sync::atomic::Ordering::Relaxed);
 
     let distinct = st.distinct.lock().unwrap();
+    let split_ok = st.split_ok.load(std::sync::atomic::Ordering::Relaxed);
+    if ctx.violation_count() == 0 && split_ok == 0 {
+        mc_core::report::machinery_failure("C10: no split case compared");
+    }
     let rejected = *rejected.lock().unwrap();
     if ctx.violation_count() == 0 {
         // 3 sizes x 3 parsers x 40 wrong lengths + 3 x 41 odd-length strings
         if rejected != 3 * 3 * 40 + 3 * 41 {
             mc_core::report::machinery_failure(&format!("C10: {rejected} wrong-length rejections observed, expected {}", 3 * 3 * 40 + 3 * 41));
         }
-        for prefix in ["s2:", "s3:", "tagged:", "cbor:", "tcbor:", "native:", "hex-rt:", "cbor-rt:", "serde-rt:", "len-ok:", "epoch:", "rolling:"] {
+        for prefix in ["tagged:", "cbor:", "tcbor:", "native:", "hex-rt:", "cbor-rt:", "serde-rt:", "len-ok:", "epoch:", "rolling:"] {
             if !distinct.iter().any(|k| k.starts_with(prefix)) {
                 mc_core::report::machinery_failure(&format!("C10: no successful comparison in section {prefix}"));
             }
@@ -648,7 +655,7 @@ pub fn run(ctx: Ctx) -> ! {
     ];
     let cov = cov! {
         "evaluations" => evals,
-        "distinct_nontrivial" => distinct.len(),
+        "distinct_nontrivial" => distinct.len() as u64 + split_ok,
         "rule" => "evaluation = one call into pallas compared with the independent reference: (a) Hasher<160|224|256> fed every 2-way split (and every 3-way split up to the stated length, and byte-at-a-time) of a fixed pseudo-random message of every length 0..=272 and 383..385, 511..513, 1024, 4096 vs own RFC 7693 Blake2b; (b) hash_tagged for all 256 tags x 6 payloads; (c) hash_cbor / hash_tagged_cbor on every minimal-form CBOR item of a depth-3 grammar driven through the real minicbor encoder (all 256 tags on every 16th item, 4 tags otherwise) and on native values, vs Blake2b(tag || refcbor bytes); (d) Hash<20|28|32> hex / CBOR / serde round trips and every length 0..=40 (+ odd digit counts) through from_str / CBOR decode / deserialize; (e) epoch nonce over 6x6 hashes x 7 extra-entropy options, rolling nonce over 6 x 9 VRF outputs (32/64 bytes) and a 64-step chain. distinct_nontrivial = distinct (section, parameters) cases whose comparison succeeded and that are not degenerate (splits with an empty chunk are not counted)",
         "samples" => samples,
         "complete_subspaces" => ["all 2-way splits of each listed length", "all 3-way splits up to the stated length", "all 256 tag bytes", "all lengths 0..=40 against Hash<20|28|32>"],
@@ -657,7 +664,7 @@ pub fn run(ctx: Ctx) -> ! {
         "evaluations_hash_values" => after_values - after_cbor,
         "evaluations_nonces" => evals - after_values,
         "cbor_items" => items.len(),
-        "three_way_splits_up_to_length" => if thorough { 140 } else { 48 },
+        "three_way_splits_up_to_length" => if thorough { 272 } else { 48 },
         "wrong_length_rejections_observed" => rejected,
     };
     drop(distinct);
